@@ -5,6 +5,7 @@ package main
 // index of the last fact that may be used to prove it (program order).
 
 import (
+	"regexp"
 	"bytes"
 	"fmt"
 	"go/ast"
@@ -138,6 +139,7 @@ type FnCtx struct {
 	spawned      []string
 	ownT         []modTarget
 	peelAlt      map[string]string
+	privateCells []*Loc
 	tagsUsed     map[string]types.Type
 	retReach     []string
 	witness      map[string]string
@@ -474,6 +476,8 @@ func (fc *FnCtx) peelGuarded(name string) (string, []string, bool) {
 	return name, guards, strings.HasPrefix(name, "|H0:")
 }
 
+var initOnlyKeyRe = regexp.MustCompile(`^.*?\.f\d+_`)
+
 func (fc *FnCtx) havocAll(st *State) {
 	// allocation counter only grows
 	nac := fc.fresh("ac", sInt)
@@ -492,12 +496,31 @@ func (fc *FnCtx) havocAll(st *State) {
 			}
 		}
 	}
+	// fields written only at construction (load.go findInitOnlyFields) cannot be changed by unknown code
+	for k := range fc.keySort {
+		if m := initOnlyKeyRe.FindString(k); m != "" && fc.e.initOnly[m] {
+			keep[k] = fc.heapGet(st, k, fc.keySort[k])
+			fc.assumptions["fields written only at construction are left unchanged by unknown code (SSA scan of every repository function): "+strings.TrimSuffix(m, "_")] = true
+		}
+	}
+	// private cells (locals captured only by deferred / directly called closures) keep their content
+	type cellVal struct {
+		loc *Loc
+		v   V
+	}
+	var cells []cellVal
+	for _, loc := range fc.privateCells {
+		cells = append(cells, cellVal{loc, fc.load(st, loc)})
+	}
 	fc.gens = append(fc.gens, &genInfo{ac: nac})
 	st.gen = len(fc.gens) - 1
 	st.heap = map[string]string{}
 	st.hac = map[string]string{}
 	for k, v := range keep {
 		st.heap[k] = v
+	}
+	for _, c := range cells {
+		fc.store(st, c.loc, c.v)
 	}
 }
 
